@@ -1,0 +1,136 @@
+//go:build verif
+
+package pogreb
+
+// Contracts for opening files, the gob metadata files and the Close path (GoVC, see /verif/DESIGN.md).
+// Comment-only file.
+
+// openFile opens (or creates, with a fresh header) a database file and returns its wrapper with FILE-INV.
+//@ func openFile(fsyst fs.FileSystem, name string, flags openFileFlags) (f *file, err error) [C02,C03,C09,C18]
+//@   requires fs: fsyst != nil
+//@   ensures ok: err == nil ==> f != nil && fresh(f) && fileInv(f) && f.size >= 512 && fidOf[f.File] == dirFid[fsyst][name] && fresh(f.File) && hPos[f.File] == 512
+//@   ensures [C18] header: err == nil ==> isSignature(fData[fidOf[f.File]], 0)
+//@   ensures [C18] created: err == nil && (old(dirFid[fsyst][name]) == 0 || flags.truncate && !flags.readOnly) ==> f.size == 512 && isHeaderV2(fData[fidOf[f.File]], 0)
+//@   ensures [C02] kept: err == nil && old(dirFid[fsyst][name]) != 0 && !(flags.truncate && !flags.readOnly) && old(fLen[dirFid[fsyst][name]]) != 0 ==> dirFid[fsyst][name] == old(dirFid[fsyst][name]) && f.size == old(fLen[dirFid[fsyst][name]]) && fData[fidOf[f.File]] == old(fData[dirFid[fsyst][name]]) && fDur[fidOf[f.File]] == old(fDur[dirFid[fsyst][name]])
+//@   ensures readonly: flags.readOnly && old(dirFid[fsyst][name]) == 0 ==> err != nil
+//@   ensures names: forall n string :: n != name ==> dirFid[fsyst][n] == old(dirFid[fsyst][n])
+//@   ensures otherfiles: forall i ref :: i != dirFid[fsyst][name] ==> fLen[i] == old(fLen[i]) && fDur[i] == old(fDur[i]) && fData[i] == old(fData[i]) && fidName[i] == old(fidName[i])
+//@   ensures handles: forall h ref :: old(hOpen[h]) ==> hOpen[h] && hPos[h] == old(hPos[h]) && fidOf[h] == old(fidOf[h])
+//@   ensures newhandle: err == nil ==> !old(hOpen)[f.File]
+//@   ensures whichfile: err == nil ==> dirFid[fsyst][name] == old(dirFid[fsyst][name]) || (old(dirFid[fsyst][name]) == 0 && (forall h ref :: old(hOpen[h]) ==> old(fidOf[h]) != dirFid[fsyst][name]) && (forall n string :: n != name ==> old(dirFid[fsyst][n]) != dirFid[fsyst][name]))
+//@   ensures injective: err == nil && old(dirInjective(fsyst)) ==> dirInjective(fsyst)
+//@   ensures onlyfresh: forall h ref :: hOpen[h] && !old(hOpen[h]) ==> fresh(h)
+//@   modifies dirFid[fsyst], fLen, fDur, fData, hOpen, hPos, fidOf, fidName
+
+// ---- gobfile.go ----------------------------------------------------------------------------------------------
+
+// writeGobFile replaces the metadata file `name` (header + gob stream). [C09]: when it returns nil the file is durable.
+//@ func writeGobFile(fsys fs.FileSystem, name string, v interface{}) (err error) [C02,C03,C09]
+//@   requires fs: fsys != nil
+//@   ensures written: err == nil ==> dirFid[fsys][name] != 0 && fLen[dirFid[fsys][name]] >= 512 && isSignature(fData[dirFid[fsys][name]], 0)
+//@   ensures [C09] durable: err == nil ==> fDur[dirFid[fsys][name]] == fLen[dirFid[fsys][name]]
+//@   ensures names: forall n string :: n != name ==> dirFid[fsys][n] == old(dirFid[fsys][n])
+//@   ensures otherfiles: forall i ref :: i != dirFid[fsys][name] ==> fLen[i] == old(fLen[i]) && fDur[i] == old(fDur[i]) && fData[i] == old(fData[i])
+//@   ensures handles: forall h ref :: old(hOpen[h]) ==> hOpen[h] && hPos[h] == old(hPos[h]) && fidOf[h] == old(fidOf[h])
+//@   ensures whichfile: err == nil ==> dirFid[fsys][name] == old(dirFid[fsys][name]) || (old(dirFid[fsys][name]) == 0 && (forall h ref :: old(hOpen[h]) ==> old(fidOf[h]) != dirFid[fsys][name]) && (forall n string :: n != name ==> old(dirFid[fsys][n]) != dirFid[fsys][name]))
+//@   ensures injective: err == nil && old(dirInjective(fsys)) ==> dirInjective(fsys)
+//@   ensures onlyfresh: forall h ref :: hOpen[h] && !old(hOpen[h]) ==> fresh(h)
+//@   modifies dirFid[fsys], fLen, fDur, fData, hOpen, hPos, fidOf, fidName, gobW
+
+// directory entries name different files (no hard links inside a database directory)
+//@ spec func opaque dirInjective(fsys fs.FileSystem) bool = forall n1 string, n2 string :: n1 != n2 && dirFid[fsys][n1] != 0 ==> dirFid[fsys][n1] != dirFid[fsys][n2]
+// the file `name` exists and is durable up to its length
+//@ spec func durableName(fsys fs.FileSystem, name string) bool = dirFid[fsys][name] != 0 && fDur[dirFid[fsys][name]] == fLen[dirFid[fsys][name]]
+
+//@ func (idx *index) writeMeta() (err error) [C02,C03,C09]
+//@   requires idx: idx.opts != nil && idx.opts.FileSystem != nil
+//@   ensures written: err == nil ==> dirFid[idx.opts.FileSystem]["index.pmt"] != 0
+//@   ensures [C09] durable: err == nil ==> durableName(idx.opts.FileSystem, "index.pmt")
+//@   ensures whichfile: err == nil ==> dirFid[idx.opts.FileSystem]["index.pmt"] == old(dirFid[idx.opts.FileSystem]["index.pmt"]) || (old(dirFid[idx.opts.FileSystem]["index.pmt"]) == 0 && (forall h ref :: old(hOpen[h]) ==> old(fidOf[h]) != dirFid[idx.opts.FileSystem]["index.pmt"]) && (forall n string :: n != "index.pmt" ==> old(dirFid[idx.opts.FileSystem][n]) != dirFid[idx.opts.FileSystem]["index.pmt"]))
+//@   ensures injective: err == nil && old(dirInjective(idx.opts.FileSystem)) ==> dirInjective(idx.opts.FileSystem)
+//@   ensures onlyfresh: forall h ref :: hOpen[h] && !old(hOpen[h]) ==> fresh(h)
+//@   ensures names: forall n string :: n != "index.pmt" ==> dirFid[idx.opts.FileSystem][n] == old(dirFid[idx.opts.FileSystem][n])
+//@   ensures otherfiles: forall i ref :: i != dirFid[idx.opts.FileSystem]["index.pmt"] ==> fLen[i] == old(fLen[i]) && fDur[i] == old(fDur[i]) && fData[i] == old(fData[i])
+//@   ensures handles: forall h ref :: old(hOpen[h]) ==> hOpen[h] && hPos[h] == old(hPos[h]) && fidOf[h] == old(fidOf[h])
+//@   modifies dirFid[idx.opts.FileSystem], fLen, fDur, fData, hOpen, hPos, fidOf, fidName, gobW
+
+//@ func (db *DB) writeMeta() (err error) [C02,C03,C09]
+//@   requires db: db.opts != nil && db.opts.FileSystem != nil
+//@   ensures written: err == nil ==> dirFid[db.opts.FileSystem]["db.pmt"] != 0
+//@   ensures [C09] durable: err == nil ==> durableName(db.opts.FileSystem, "db.pmt")
+//@   ensures whichfile: err == nil ==> dirFid[db.opts.FileSystem]["db.pmt"] == old(dirFid[db.opts.FileSystem]["db.pmt"]) || (old(dirFid[db.opts.FileSystem]["db.pmt"]) == 0 && (forall h ref :: old(hOpen[h]) ==> old(fidOf[h]) != dirFid[db.opts.FileSystem]["db.pmt"]) && (forall n string :: n != "db.pmt" ==> old(dirFid[db.opts.FileSystem][n]) != dirFid[db.opts.FileSystem]["db.pmt"]))
+//@   ensures injective: err == nil && old(dirInjective(db.opts.FileSystem)) ==> dirInjective(db.opts.FileSystem)
+//@   ensures onlyfresh: forall h ref :: hOpen[h] && !old(hOpen[h]) ==> fresh(h)
+//@   ensures names: forall n string :: n != "db.pmt" ==> dirFid[db.opts.FileSystem][n] == old(dirFid[db.opts.FileSystem][n])
+//@   ensures otherfiles: forall i ref :: i != dirFid[db.opts.FileSystem]["db.pmt"] ==> fLen[i] == old(fLen[i]) && fDur[i] == old(fDur[i]) && fData[i] == old(fData[i])
+//@   ensures handles: forall h ref :: old(hOpen[h]) ==> hOpen[h] && hPos[h] == old(hPos[h]) && fidOf[h] == old(fidOf[h])
+//@   modifies dirFid[db.opts.FileSystem], fLen, fDur, fData, hOpen, hPos, fidOf, fidName, gobW
+
+// index.close: meta written, both index files closed. [C09]: and durable.
+//@ func (idx *index) close() (err error) [C02,C03,C09]
+//@   requires idx: idxFiles(idx) && idx.opts != nil && idx.opts.FileSystem != nil
+//@   requires dir: dirInjective(idx.opts.FileSystem) && dirFid[idx.opts.FileSystem]["main.pix"] == fidOf[idx.main.File] && dirFid[idx.opts.FileSystem]["overflow.pix"] == fidOf[idx.overflow.File]
+//@   ensures [C03] closed: err == nil ==> !hOpen[idx.main.File] && !hOpen[idx.overflow.File] && dirFid[idx.opts.FileSystem]["index.pmt"] != 0
+//@   ensures [C09] durable: err == nil ==> durableName(idx.opts.FileSystem, "index.pmt") && durableName(idx.opts.FileSystem, "main.pix") && durableName(idx.opts.FileSystem, "overflow.pix")
+//@   ensures onlyfresh: forall h ref :: hOpen[h] && !old(hOpen[h]) ==> fresh(h)
+//@   ensures whichfile: err == nil ==> dirFid[idx.opts.FileSystem]["index.pmt"] == old(dirFid[idx.opts.FileSystem]["index.pmt"]) || (old(dirFid[idx.opts.FileSystem]["index.pmt"]) == 0 && (forall n string :: n != "index.pmt" ==> old(dirFid[idx.opts.FileSystem][n]) != dirFid[idx.opts.FileSystem]["index.pmt"]))
+//@   ensures names: forall n string :: n != "index.pmt" ==> dirFid[idx.opts.FileSystem][n] == old(dirFid[idx.opts.FileSystem][n])
+//@   ensures otherfiles: forall i ref :: i != dirFid[idx.opts.FileSystem]["index.pmt"] && i != old(fidOf[idx.main.File]) && i != old(fidOf[idx.overflow.File]) ==> fLen[i] == old(fLen[i]) && fDur[i] == old(fDur[i]) && fData[i] == old(fData[i])
+//@   ensures handles: forall h ref :: old(hOpen[h]) && h != ref(idx.main.File) && h != ref(idx.overflow.File) ==> hOpen[h] && fidOf[h] == old(fidOf[h])
+//@   modifies dirFid[idx.opts.FileSystem], fLen, fDur, fData, hOpen, hPos, fidOf, fidName, gobW
+
+// names of segment meta files are not the names of the other database files (string facts about the literals; assumed)
+//@ axiom segmeta-names: forall a string :: extOf(a) == ".psg" ==> a + ".pmt" != "db.pmt" && a + ".pmt" != "index.pmt" && a + ".pmt" != "main.pix" && a + ".pmt" != "overflow.pix" && a + ".pmt" != "lock" && extOf(a + ".pmt") != ".psg"
+
+// datalog.close: every segment synced and closed, its meta file written and synced.
+//@ spec func segClosed(dl *datalog, i int) bool = dl.segments[i] != nil ==> allocated(dl.segments[i].file.File) && !hOpen[dl.segments[i].file.File] && dirFid[dl.opts.FileSystem][dl.segments[i].name + ".pmt"] != 0
+//@ spec func segDurableOnDisk(dl *datalog, i int) bool = dl.segments[i] != nil ==> durableName(dl.opts.FileSystem, dl.segments[i].name) && durableName(dl.opts.FileSystem, dl.segments[i].name + ".pmt")
+// segment i is still open and well formed, and is the directory entry of its name
+//@ spec func segOpenOK(dl *datalog, i int) bool = dl.segments[i] != nil ==> segOK(dl.segments[i]) && dirFid[dl.opts.FileSystem][dl.segments[i].name] == fidOf[dl.segments[i].file.File]
+// h is the handle of a segment of the table; n is the name of the meta file of a segment of the table
+//@ spec func segHandle(dl *datalog, h ref) bool = exists i int :: 0 <= i && i < 32767 && dl.segments[i] != nil && h == ref(dl.segments[i].file.File)
+//@ spec func segMetaName(dl *datalog, n string) bool = exists i int :: 0 <= i && i < 32767 && dl.segments[i] != nil && n == dl.segments[i].name + ".pmt"
+//@ spec func segFileName(dl *datalog, n string) bool = exists i int :: 0 <= i && i < 32767 && dl.segments[i] != nil && n == dl.segments[i].name
+
+//@ func (dl *datalog) close() (err error) [C02,C03,C09]
+//@   requires inv: dlInv(dl) && dirInjective(dl.opts.FileSystem)
+//@   ensures [C03] closed: err == nil ==> forall i int :: 0 <= i && i < 32767 ==> segClosed(dl, i)
+//@   ensures [C09] durable: err == nil ==> forall i int :: 0 <= i && i < 32767 ==> segDurableOnDisk(dl, i)
+//@   ensures names: err == nil ==> forall n string :: !segMetaName(dl, n) ==> dirFid[dl.opts.FileSystem][n] == old(dirFid[dl.opts.FileSystem][n])
+//@   ensures otherfiles: err == nil ==> forall n string :: !segMetaName(dl, n) && !segFileName(dl, n) && old(dirFid[dl.opts.FileSystem][n]) != 0 ==> fLen[dirFid[dl.opts.FileSystem][n]] == old(fLen[dirFid[dl.opts.FileSystem][n]]) && fDur[dirFid[dl.opts.FileSystem][n]] == old(fDur[dirFid[dl.opts.FileSystem][n]]) && fData[dirFid[dl.opts.FileSystem][n]] == old(fData[dirFid[dl.opts.FileSystem][n]])
+//@   ensures handles: forall h ref :: old(hOpen[h]) && !segHandle(dl, h) ==> hOpen[h] && fidOf[h] == old(fidOf[h])
+//@   ensures injective: err == nil ==> dirInjective(dl.opts.FileSystem)
+//@   modifies dirFid[dl.opts.FileSystem], fLen, fDur, fData, hOpen, hPos, fidOf, fidName, gobW
+//@   loop 1:
+//@     invariant -1 <= rangeindex && rangeindex < 32767 && dl == old(dl) && dirInjective(dl.opts.FileSystem) && dl.opts != nil && dl.opts.FileSystem != nil
+//@     invariant forall i int :: 0 <= i && i <= rangeindex ==> segClosed(dl, i)
+//@     invariant forall i int :: 0 <= i && i <= rangeindex ==> segDurableOnDisk(dl, i)
+//@     invariant forall i int :: rangeindex < i && i < 32767 ==> segOpenOK(dl, i)
+//@     invariant forall n string :: !segMetaName(dl, n) ==> dirFid[dl.opts.FileSystem][n] == old(dirFid[dl.opts.FileSystem][n])
+//@     invariant forall n string :: !segMetaName(dl, n) && !segFileName(dl, n) && old(dirFid[dl.opts.FileSystem][n]) != 0 ==> fLen[dirFid[dl.opts.FileSystem][n]] == old(fLen[dirFid[dl.opts.FileSystem][n]]) && fDur[dirFid[dl.opts.FileSystem][n]] == old(fDur[dirFid[dl.opts.FileSystem][n]]) && fData[dirFid[dl.opts.FileSystem][n]] == old(fData[dirFid[dl.opts.FileSystem][n]])
+//@     invariant forall h ref :: old(hOpen[h]) && !segHandle(dl, h) ==> hOpen[h] && fidOf[h] == old(fidOf[h])
+//@     invariant forall h ref :: hOpen[h] && !old(hOpen[h]) ==> fresh(h)
+//@     decreases 32767 - rangeindex
+//@     modifies dirFid[dl.opts.FileSystem], fLen, fDur, fData, hOpen, hPos, fidOf, fidName, gobW
+
+// extensions of the fixed file names (string facts about literals; assumed)
+//@ axiom ext-literals: extOf("main.pix") == ".pix" && extOf("overflow.pix") == ".pix" && extOf("index.pmt") == ".pmt" && extOf("db.pmt") == ".pmt" && extOf("lock") == ""
+
+// ---- db.go: Close --------------------------------------------------------------------------------------------
+// the directory entries of the index files are the files behind the open index handles
+//@ spec func idxInDir(db *DB) bool = db.index.opts == db.opts && dirFid[db.opts.FileSystem]["main.pix"] == fidOf[db.index.main.File] && dirFid[db.opts.FileSystem]["overflow.pix"] == fidOf[db.index.overflow.File]
+
+// Close (of a database without background worker): [C03] the lock file is removed last, after every file was
+// written and closed; [C09] and after every file was made durable.
+//@ func (db *DB) Close() (err error) [C02,C03,C09]
+//@   requires inv: dbFull(db) && dirInjective(db.opts.FileSystem) && idxInDir(db)
+//@   requires noworker: db.cancelBgWorker == nil
+//@   requires lock: db.lock != nil && lockFS[db.lock] == db.opts.FileSystem && lockName[db.lock] == "lock"
+//@   requires unlocked: lockSt[fieldaddr(db, mu)] == 0
+//@   ensures [C03] released: err == nil ==> dirFid[db.opts.FileSystem]["lock"] == 0
+//@   ensures unlocked: lockSt[fieldaddr(db, mu)] == 0
+//@   at call close@1: hint after-dbmeta: durableName(db.opts.FileSystem, "db.pmt") && dirInjective(db.opts.FileSystem) && dbFull(db) && idxInDir(db)
+//@   at call close@2: hint after-log: durableName(db.opts.FileSystem, "db.pmt") && dirInjective(db.opts.FileSystem) && idxFiles(db.index) && idxInDir(db) && (forall i int :: 0 <= i && i < 32767 ==> segClosed(db.datalog, i) && segDurableOnDisk(db.datalog, i))
+//@   at call Unlock@2: assert [C03] closed-first: !hOpen[db.index.main.File] && !hOpen[db.index.overflow.File] && dirFid[db.opts.FileSystem]["index.pmt"] != 0 && dirFid[db.opts.FileSystem]["db.pmt"] != 0 && forall i int :: 0 <= i && i < 32767 ==> segClosed(db.datalog, i)
+//@   at call Unlock@2: assert [C09] durable-first: durableName(db.opts.FileSystem, "db.pmt") && durableName(db.opts.FileSystem, "index.pmt") && durableName(db.opts.FileSystem, "main.pix") && durableName(db.opts.FileSystem, "overflow.pix") && forall i int :: 0 <= i && i < 32767 ==> segDurableOnDisk(db.datalog, i)
+//@   modifies *
